@@ -274,7 +274,9 @@ func C18(c *Ctx) {
 	c.Rep.Rule = "programs with explicit panics (string and error values) and implicit run-time panics (index out of range, nil map write, integer division by zero, nil func call) at PRNG-chosen statement positions, mostly guarded by a tape bit so that paths with and without the panic are explored; also in delegates, loop conditions, for-post, switch tags, closures called after a yield, two live iterators; the consumer wraps EACH call in its own recover and logs the panic at the call where it surfaced; compared: full trace (which call, which value, everything before it) compiled vs reference coroutine; nothing after the panicking call is compared. non-trivial = some path panicked; distinct = shape hash x tape."
 	RunE1(c, E1Spec{
 		Programs:             progs,
-		Opts:                 e1.Opts{Hist: []int{1, 2, 3}, HistPaths: 3},
+		// panicnil=1: panic(nil) keeps its pre-1.21 meaning (recover() returns nil), which is what a user module
+		// with go <= 1.20 (like go-co's own go.mod) gets; both variants run under the same setting
+		Opts:                 e1.Opts{Hist: []int{1, 2, 3}, HistPaths: 3, Env: []string{"GODEBUG=panicnil=1"}},
 		Kinds:                []string{"CR-full", "STUB"},
 		AcceptanceViolations: true,
 		NonTrivial:           func(o *e1.Outcome) bool { return o.Run != nil && o.Run.PanicRuns > 0 },
